@@ -267,6 +267,10 @@ pub enum ScMode {
     ReconText,
     /// Only what a typed encoder can write.
     Compact,
+    /// Well-framed Recon text for a decoder that expects an `i32`: about half are an `i32`
+    /// (possibly padded), the rest are ill-typed - some rejected at the first event (records,
+    /// attributes), some only at the end of the body (texts, floats, out of range numbers).
+    Strict,
 }
 
 pub fn arb_sc(mode: ScMode) -> BoxedStrategy<Sc> {
@@ -278,10 +282,36 @@ pub fn arb_sc(mode: ScMode) -> BoxedStrategy<Sc> {
         1 => proptest::collection::vec(prop_oneof![Just(0u8), Just(1), Just(2), Just(3), Just(4), Just(5), Just(255)], 1..20),
     ]
     .prop_map(Sc::Bytes);
+    if mode == ScMode::Strict {
+        let int = prop_oneof![3 => -50i32..500, 1 => any::<i32>()].prop_map(V::I32);
+        let bad = prop_oneof![
+            3 => proptest::collection::vec((arb_ident(), -9i32..100), 1..6).prop_map(|kv| {
+                V::Record(vec![], kv.into_iter().map(|(k, v)| I::Slot(V::Text(k), V::I32(v))).collect())
+            }),
+            2 => proptest::collection::vec(-9i32..1000, 2..12)
+                .prop_map(|xs| V::Record(vec![], xs.into_iter().map(|x| I::Val(V::I32(x))).collect())),
+            1 => (arb_ident(), -9i32..100).prop_map(|(a, n)| V::Record(vec![(a, V::I32(n))], vec![I::Val(V::I32(n))])),
+            2 => "[a-z ]{3,24}".prop_map(V::Text),
+            1 => arb_ident().prop_map(V::Text),
+            1 => (-1000i32..1000).prop_map(|n| V::f(n as f64 / 8.0 + 0.0625)),
+            1 => (3_000_000_000i64..9_000_000_000).prop_map(V::I64),
+            1 => any::<bool>().prop_map(V::Bool),
+            1 => Just(V::Extant),
+            1 => arb_body_value(),
+        ];
+        return prop_oneof![
+            3 => int.clone().prop_map(Sc::Recon),
+            2 => (int, 0u8..7, 0u8..7).prop_map(|(v, l, t)| Sc::Text(v, l, t)),
+            4 => bad.clone().prop_map(Sc::Recon),
+            2 => (bad, 0u8..7, 0u8..7).prop_map(|(v, l, t)| Sc::Text(v, l, t)),
+        ]
+        .boxed();
+    }
     match mode {
         ScMode::Any => prop_oneof![3 => bytes, 3 => recon, 1 => text].boxed(),
         ScMode::ReconText => prop_oneof![3 => recon, 2 => text].boxed(),
         ScMode::Compact => recon.boxed(),
+        ScMode::Strict => unreachable!(),
     }
 }
 
